@@ -1,4 +1,6 @@
 """C01 - replay on unchanged code reproduces the recorded run."""
+import random
+
 from lib import recdsl as rd
 from lib import pyvals as pv
 from props.rec_common import *  # noqa: F401,F403
@@ -117,6 +119,34 @@ def many_outputs(rng):
     return dict(cls="OpA", classlevel=False, extractor={"kind": "none"}, body=c)
 
 
+def capture_subsets(rng, static=None, pos=None, byname=None):
+    """The same input alias called several times with arguments that differ ONLY at one captured position (every position
+    incl. 0 for static functions, by position and by name), each call answering differently: distinct calls, distinct keys."""
+    static = rng.random() < 0.5 if static is None else static
+    lo = 0 if static else 1            # (position 0 of an instance method is self)
+    pos = rng.choice([0, 1, 2]) if pos is None else pos
+    byname = rng.random() < 0.3 if byname is None else byname
+    cap = [[None, "k"]] if byname else [[lo + pos, rng.choice([None, "x"])]]
+    if rng.random() < 0.4:
+        cap.append([lo + (pos + 1) % 3, None])
+    cf = dict(alias=rng.choice(["load", "db.fetch"]), resolver={"kind": "none"}, cap=cap, static=static, property=False,
+              handler=rng.choice(["none", "none", "wrap"]), prep_discards=False, run_missing=False, vmiss={"kind": "none"},
+              fallbacks={"kind": "none"})
+    n = rng.randrange(2, 5)
+    c = {"k": "ret", "e": {"var": n - 1}}
+    vals = rng.sample([pv.i(0), pv.i(1), pv.s("a"), pv.s(""), pv.none(), pv.b(False), pv.lst([pv.i(1)]), pv.tup([])], n)
+    for i in reversed(range(n)):
+        args = [pv.s("same"), pv.s("same"), pv.s("same")]
+        kwargs = []
+        if byname:
+            kwargs = [["k", {"lit": vals[i]}]]
+        else:
+            args[pos] = vals[i]
+        c = {"k": "in", "cfg": dict(cf), "body": {"k": "ret", "e": {"lit": pv.i(500 + i)}},
+             "args": [{"lit": a} for a in args], "kwargs": kwargs, "next": c}
+    return dict(cls="OpA", classlevel=False, extractor={"kind": "none"}, body=c)
+
+
 TWINS = [
     [pv.tup([pv.i(1), pv.i(2)]), pv.lst([pv.i(1), pv.i(2)])],
     [{"t": "obj", "cls": "lib.pyvals.Pt", "v": [["x", pv.i(7)]]}, {"t": "obj", "cls": "lib.pyvals.Qt", "v": [["x", pv.i(7)]]}],
@@ -177,10 +207,19 @@ def threaded_outputs(rng):
 
 def generate(rng, tier):
     cases = []
+    frng = random.Random(rng.random())      # (its own stream: the cases below do not shift the ones after them)
+    for static in (True, False):            # every captured position of static and instance inputs, and capture by name
+        for pos, byname in ((0, False), (1, False), (2, False), (0, True)):
+            op = capture_subsets(frng, static, pos, byname)
+            runs = [dict(kind="record", enabled=True, prm=dict(PRM), op=op, save_fails=False),
+                    dict(kind="play", target=0, pf={"kind": "op", "op": rd.clean(op)}, enabled=False)]
+            cases.append(dict(draws=[], runs=runs, cassette="memory", unshare=True))
     n = 200 if tier == "quick" else 3000
     for i in range(n):
         if i % 25 == 7:
             op = many_outputs(rng)
+        elif i % 10 == 9:
+            op = capture_subsets(rng)
         elif i % 10 == 3:
             op = type_twins(rng)
         elif i % 10 == 5:
